@@ -8,6 +8,10 @@ from pathlib import Path
 
 VERIF = Path(__file__).resolve().parent.parent
 NOTES = {
+    "C13-r4change2": "missed at first (same mechanism as C12-change2, which `./check C12 quick` catches): the entry damage was only compared with get_damage of its own logs; it is now also computed in the harness from the event's own figures (damage% x hits x the factor of the stat with the buff in force x the advantages)",
+    "C15-r4change2": "missed at first (same mechanism as C02-change2, which `./check C02 quick` catches with a failing input): four threads now evaluate the same expressions under different bindings with a 1 microsecond switch interval and every answer must be the sequential one",
+    "C19-r4change1": "first reported without a failing input: optimize() is now called a second time on the same optimizer object and must return the same state",
+    "C10-r4change1": "crashed the harness at first (exit 2: the checkpoint of a reached state could not be restored): the views of the RECORDED state (engine.get_viewer(playlog)) are now evaluated at every fork point, must be defined and must show what the live views show",
     "C03-r4change1": "missed at first: no rollback went onto a command the components REJECT right after an action others react to; per job and skill the skill is now used, used again (mostly rejected on cooldown), rolled back onto the rejected command and onto the one before it, and the run goes on",
     "C05-r4change1": "missed at first: only the operation engine was driven; the actions of a plan are now also played on a SimulationRuntime (runtime.play / save / load) with checkpoints taken between any two actions -- the first before the first action -- and restored after further actions",
     "C08-r4change2": "first reported without a failing input (the module-level cache is rejected by the effect checker): a sample of the harvested reducer calls, each followed by its twin (same name, description differing in one number), is replayed in two new interpreters in opposite orders (harness/c08_order.py) and every answer must agree",
